@@ -425,6 +425,10 @@ def term_as_num(t: Val, array: bool, kind=None) -> Num:
             ln = lib_length(t)
             if ln is not None:
                 length = ln
+                if t.head == 'lib:numpy.arange' and t.kw('dtype') is None:
+                    out = Num(sym.idx(), ln, kind or 'ndarray')     # arange(m)[i] == i (the forms lib_length knows start at 0 with step 1)
+                    out.dt = ('int',)
+                    return out
         return Num(sym.A('el', ref, sym.idx()), length, kind or 'ndarray')
     return Num(sym.A('val', ref))
 
